@@ -57,11 +57,17 @@ def model_jobs(tier):
         jobs.append(('mechanism of compiler.py, %s, one key, <=%d steps' % (w, deep),
                      dict(world=w, steps=deep, focus=True, emit='all', inv=('TransparentUpToDevs', 'KillHarmless', 'TypeOK', 'Emit')),
                      'holds', 'gen-focus-%s.ndjson' % w, 1, None))
-    jobs.append(('required mechanism, all keys interleaved, <=%d steps' % (2 if q else 3),
-                 dict(world='split', devs=[], steps=2 if q else 3, inv=('Transparent', 'TypeOK')), 'holds', None, 1, None))
-    jobs.append(('mechanism of compiler.py, all keys interleaved, <=%d steps' % (2 if q else 3),
-                 dict(world='plain', steps=2 if q else 3, emit='all',
+    jobs.append(('required mechanism, all keys interleaved, <=2 steps',
+                 dict(world='split', devs=[], steps=2, inv=('Transparent', 'TypeOK')), 'holds', None, 1, None))
+    jobs.append(('mechanism of compiler.py, all keys interleaved, <=2 steps',
+                 dict(world='plain', steps=2, emit='all',
                       inv=('TransparentUpToDevs', 'KillHarmless', 'TypeOK', 'Emit')), 'holds', 'gen-full.ndjson', 1, None))
+    if not q:
+        jobs.append(('required mechanism, all keys interleaved, no faults, <=3 steps',
+                     dict(world='split', devs=[], steps=3, faults=(), inv=('Transparent', 'TypeOK')), 'holds', None, 1, None))
+        jobs.append(('mechanism of compiler.py, all keys interleaved, no faults, <=3 steps',
+                     dict(world='split', steps=3, faults=(), emit='all',
+                          inv=('TransparentUpToDevs', 'KillHarmless', 'TypeOK', 'Emit')), 'holds', 'gen-full3.ndjson', 1, None))
     jobs.append(('mechanism of compiler.py, program steps (Kill at every pc), one key, <=%d steps' % (3 if q else 4),
                  dict(world='split', steps=3 if q else 4, focus=True, grain='small',
                       inv=('TransparentUpToDevs', 'KillHarmless', 'TypeOK')), 'holds', None, 1, None))
@@ -260,10 +266,10 @@ def sweep_cases(cases, rng, tier):
     # damage sweeps
     for how in ('flip', 'trunc'):
         bases = pick(lambda c: one_fault(c, 'corrupt') and [s for s in c['hist'] if s['op'] == 'corrupt'][0]['how'] == how,
-                     2 if q else 4)
+                     2)
         for bi, c in enumerate(bases):
             for mode in ('db', 'file'):
-                masks = [0x01] if q else [0x01, 0x20, 0xff]
+                masks = [0x01] if q else [0x01, 0xff]
                 if how == 'trunc':
                     masks = [0]
                 for mask in masks:
@@ -389,22 +395,23 @@ def c17(tier, seed):
         focus = load_histories(run, sorted(n for n in names if 'focus' in n))
         others = load_histories(run, sorted(n for n in names if 'focus' not in n))
         run.notes['histories_generated_by_tlc'] = len(focus) + len(others)
-        budget = (700, 500) if q else (6000, 6000)
-        chosen = select(focus, rng, budget[0]) + select(others, rng, budget[1])
-        cases = [concretise(c, rng, tier) for c in chosen]
-        cases = witness_cases() + sweep_cases(focus, rng, tier) + cases
-        # sweeps are heavy: spread them over the shards by interleaving with the plain histories
-        heavy = [c for c in cases if 'sweep' in c and c['sweep']['kind'] != 'kill-sample' or c.get('sweep', {}).get('count', 0) > 1]
-        hid = set(id(c) for c in heavy)
-        light = [c for c in cases if id(c) not in hid]
-        order = []
-        li = 0
-        per = max(1, len(light) // max(1, len(heavy)))
-        for h in heavy:
-            order.append(h)
-            order += light[li:li + per]
-            li += per
-        order += light[li:]
+        budget = (600, 600) if q else (4000, 4000)
+        sel_f = [concretise(c, rng, tier) for c in select(focus, rng, budget[0])]
+        sel_o = [concretise(c, rng, tier) for c in select(others, rng, budget[1])]
+        sweeps = sweep_cases(focus, rng, tier)
+        # one order for all shards: witnesses first, then sweeps / one-key histories / interleaved-key
+        # histories in turn, so that a deadline cuts all three kinds alike
+        order = witness_cases()
+        qs = [sweeps, sel_f, sel_o]
+        step = [max(1, len(x)) for x in qs]
+        total = max(step)
+        pos = [0, 0, 0]
+        for t in range(total):
+            for k in range(3):
+                upto = (t + 1) * len(qs[k]) // total
+                order += qs[k][pos[k]:upto]
+                pos[k] = upto
+        heavy = sweeps
         cpath = run.path('cases.ndjson')
         pl.write_cases(order, cpath)
         run.notes['histories_selected'] = len(order)
